@@ -2,11 +2,13 @@ import A2Verif.Lemmas.FsProdosEx1
 import A2Verif.Lemmas.FsProdosEx2
 import A2Verif.Lemmas.FsProdosEx3
 import A2Verif.Lemmas.FsProdosEx4
+import A2Verif.Lemmas.FsProdosEx5
 /-!
 Kernel-evaluated instances for the concrete ProDOS model, in files that build in parallel (each under three minutes): `Lemmas/FsProdosEx1.lean` — the formatted 10-block volume satisfies `SInv` (`formatted10_sinv`,
 `format_establishes_inv_small`) and the non-vacuity examples of the theorems that assume `SInv`; `FsProdosEx2.lean` — two
 short histories checked step by step with the executable `historyRefines` (`example_sparse_put_refines`,
 `example_history_refines`); `FsProdosEx3.lean` — finding `prodos-put-first-chunk-hole` on the source as written and as
 repaired (`first_chunk_hole_as_written_breaks`, `first_chunk_hole_repaired_refines`); `FsProdosEx4.lean` (after `Ex1`) — the
-hypotheses of the acceptance theorem and of the C01 corollary for `put` are met.
+hypotheses of the acceptance theorem and of the C01 corollary for `put` are met; `FsProdosEx5.lean` (after `Ex1`) — paths into a
+first-level sub-directory: the volume after `create("d")`, the four refinement theorems and a history on `d/…`.
 -/
